@@ -240,7 +240,6 @@ type half struct {
 	// fault injection on the write side
 	FailAt   int // >= 0: the write that would carry stream byte FailAt is cut there and fails
 	FailErr  error
-	failed   bool
 	ReadLog  []int
 	LogReads bool
 	ev       *EventLog
@@ -340,9 +339,6 @@ func (h *half) write(b []byte) (int, error) {
 	if h.wclosed || h.rclosed {
 		return 0, io.ErrClosedPipe
 	}
-	if h.failed {
-		return 0, h.FailErr
-	}
 	h.NWrites++
 	start := len(h.Tap)
 	if h.FailAt >= 0 && h.FailAt < start+len(b) {
@@ -355,7 +351,9 @@ func (h *half) write(b []byte) (int, error) {
 		if h.ev != nil {
 			h.ev.add(h.dir, n)
 		}
-		h.failed = true
+		// one-shot: the connection works again afterwards (a deadline that was extended, a
+		// transient condition): whether anything is written after a fault is up to the caller
+		h.FailAt = -1
 		h.cond.Broadcast()
 		return n, h.FailErr
 	}
@@ -470,6 +468,25 @@ func (h *half) FailWriteAt(p int, err error) {
 }
 
 var ErrInjected = errors.New("injected write error")
+
+// NetErr is a net.Error: a timeout (expired write deadline; unwraps to
+// os.ErrDeadlineExceeded) or a temporary condition.
+type NetErr struct {
+	Msg        string
+	IsTimeout  bool
+	IsTemp     bool
+	underlying error
+}
+
+func (e *NetErr) Error() string   { return e.Msg }
+func (e *NetErr) Timeout() bool   { return e.IsTimeout }
+func (e *NetErr) Temporary() bool { return e.IsTemp }
+func (e *NetErr) Unwrap() error   { return e.underlying }
+
+var (
+	ErrTimeout   net.Error = &NetErr{Msg: "write: i/o timeout", IsTimeout: true, IsTemp: true, underlying: os.ErrDeadlineExceeded}
+	ErrTemporary net.Error = &NetErr{Msg: "write: resource temporarily unavailable", IsTemp: true}
+)
 
 // ---------------------------------------------------------------- DetRand
 
